@@ -142,6 +142,14 @@ def _call_form(case, form, tag):
     return [("t", "at-t", _as_tuple(fn(num(tq), *pos, **kw)))]
 
 
+def _cplx(v):
+    """total projection of a returned value to a complex number (nan for anything that is not a number)"""
+    try:
+        return complex(v)
+    except Exception:
+        return complex(float("nan"), 0.0)
+
+
 def _mp(x):
     """sympy number -> mpmath mpc with DPS digits (structural conversion)"""
     import mpmath
@@ -181,11 +189,22 @@ def check_group(group):
     tq = terms.to_fraction(case0["in"]["t"])
     t0q = terms.to_fraction(case0["in"]["tinit"])
     bad = []
-    exprs, how, err, t = _symbolic(case0)
-    tS = sympy.Rational(tq.numerator, tq.denominator)
-    t0S = sympy.Rational(t0q.numerator, t0q.denominator)
     ncomp = len(exp["ret"])
+    main0 = ([c for c in group if c["in"]["backend"] in ("sympy:mod", "plain")] or group)[0]
+    try:
+        exprs, how, err, t = _symbolic(case0)
+        tS = sympy.Rational(tq.numerator, tq.denominator)
+        t0S = sympy.Rational(t0q.numerator, t0q.denominator)
+        if len(exprs) != ncomp:
+            raise ValueError("arity: %d components returned, %d documented" % (len(exprs), ncomp))
+        _probe = [(_mp(e.subs(t, tS)), _mp(sympy.diff(e, t).subs(t, tS)), _mp(e.subs(t, t0S))) for e in exprs]
+    except Exception as e:
+        # whatever the function returned under the sympy backend could not be evaluated: an observation
+        return [(main0, {"clause": "symbolic-unevaluable", "exc": type(e).__name__},
+                 {"observed": {"raised": type(e).__name__, "msg": str(e)[:200]}, "expected": "a differentiable expression"})], \
+            {"value": [], "how": "failed"}
     scale = float(terms.to_fraction(exp["scale"]))
+    cscale = [float(terms.to_fraction(q)) for q in exp["comp_scale"]]
     vals = [_mp(e.subs(t, tS)) for e in exprs]
     derivs = [_mp(sympy.diff(e, t).subs(t, tS)) for e in exprs]
     ref = {"value": [str(v) for v in vals], "how": how}
@@ -200,7 +219,7 @@ def check_group(group):
             f0 = _mp(exprs[i].subs(t, t0S))
             want = terms.to_fraction(exp["init"][i])
             w = mpmath.mpf(want.numerator) / want.denominator
-            if not abs(f0 - w) <= rt_i * scale:
+            if not abs(f0 - w) <= rt_i * cscale[i]:
                 bad.append((c, {"clause": "init", "component": exp["ret"][i]},
                             {"observed": str(f0), "expected": str(want), "at_t": str(t0q)}))
             s0 = exp["slope0"][i]
@@ -247,11 +266,11 @@ def check_group(group):
                                     {"observed": out, "expected": want}))
                     continue
                 refs = vals if want == "at-t" else init_f
-                obs = [complex(v) for v in out]
+                obs = [_cplx(v) for v in out]
                 for i in range(min(ncomp, len(obs))):
                     o = obs[i]
                     r = complex(refs[i])
-                    tol = rt_b * max(abs(r), scale)
+                    tol = rt_b * max(abs(r), cscale[i])
                     kind = "nan" if (o != o) else ("complex" if abs(o.imag) > tol else "number")
                     if kind != "number" or not abs(o.real - r.real) <= tol:
                         bad.append((c, {"clause": "value", "observed_kind": kind, "component": c["exp"]["ret"][i],
@@ -289,6 +308,18 @@ def _trace_for(item):
     import sympy
     fnname, sig, args = item
     case = {"in": {"fn": fnname, "sig": sig, "args": args}}
+    try:
+        return _trace_events(item, case)
+    except Exception as e:       # total observation: the call itself failed -> a result event no spec accepts
+        evs = [{"k": "fn", "fn": fnname}, {"k": "backend", "b": "plain" if fnname == "dimerization_irrev" else "sympy:mod"}]
+        evs += [{"k": "par", "name": n, "v": args[n]} for n in sig]
+        evs += [{"k": "time", "d": [0, 1]}, {"k": "result", "f0": [], "d0": [], "raised": type(e).__name__}]
+        return evs
+
+
+def _trace_events(item, case):
+    import sympy
+    fnname, sig, args = item
     exprs, how, err, t = _symbolic(case)
     t0 = terms.to_fraction(args.get("t0", [0, 1]))
     t0S = sympy.Rational(t0.numerator, t0.denominator)
@@ -358,6 +389,11 @@ def run(ctx):
     for c in res_s.cases:
         c["slice"] = "stiff"
     groups = groups + _groups(res_s.cases)
+    # excess slice (one reactant 5e10 .. 2e12 times the other): always in full
+    res_x = ctx.tlc("Integrated_MC", "Integrated_MC_excess.cfg", require_cases=100, timeout=600)
+    for c in res_x.cases:
+        c["slice"] = "excess"
+    groups = groups + _groups(res_x.cases)
     ctx.exhaustive = not ctx.quick
     outs = ctx.pmap(_work, groups)
     for g, (bad, ref) in zip(groups, outs):
@@ -369,7 +405,7 @@ def run(ctx):
             ctx.ran({"in": c["in"]}, nontrivial=nontriv)
         for c, extra, detail in bad:
             d = {"direction": "spec->code", "case": c,
-                 "tlc_cfg": "Integrated_MC_stiff.cfg" if c.get("slice") == "stiff" else cfg}
+                 "tlc_cfg": "Integrated_MC_%s.cfg" % c["slice"] if c.get("slice") else cfg}
             extra = dict(extra, slice=c.get("slice", "grid"))
             d.update(detail)
             ctx.counters["disagree:%s:%s:%s" % (c["in"]["fn"], extra.get("clause"), c["in"]["backend"].split(":")[0])] += 1
